@@ -166,14 +166,8 @@ func diffStore(pd *store.PersistedData, s *Snap) string {
 func (m *monState) checkSaveStep(si *StepInfo, pre, post *Snap, evs []Event) {
 	run := m.run
 	w := run.cur
-	now := post.At
-	if w.mem != nil {
-		// SaveToStore has more than one hook point in front of its lock; the step that matters is the one in
-		// which the removal phase ran and the snapshot was handed to the store
-		if n, _ := w.mem.counts(); n == 0 || w.mem.handed[n-1].Step != si.N {
-			return
-		}
-	}
+	call := run.saving[si.Gid]
+	// ---- what this step of the save removed
 	removed := map[string]*JobSnap{}
 	for name, j := range pre.Jobs {
 		if post.Jobs[name] == nil {
@@ -201,73 +195,76 @@ func (m *monState) checkSaveStep(si *StepInfo, pre, post *Snap, evs []Event) {
 	for pname, jobs := range byPipe {
 		def := w.defs.pipe(pname)
 		if def == nil {
-			// r5: purged - the finished ones. (A job that is still running or waiting cannot simply be forgotten: it would
-			// go on executing, or sit on the wait list, as a job nobody can see; see finding F11. Whether such a job is
-			// kept until it has finished is not demanded here either way.)
-			for _, j := range jobs {
-				if removed[j.Name] == nil && j.Terminal() {
-					run.violate("C12", "r5", "step %d: finished job %s of pipeline %s, which is no longer defined, survived a save", si.N, j.Name, pname)
-				}
+			if len(removed) > 0 {
+				run.probe("purge_undefined_pipeline")
 			}
-			run.probe("purge_undefined_pipeline")
 			continue
 		}
-		period := time.Duration(def.RetPeriodMs) * time.Millisecond
-		var keptFinished []*JobSnap
 		for _, j := range jobs {
-			gone := removed[j.Name] != nil
-			if gone && !j.Terminal() {
+			if removed[j.Name] == nil {
+				continue
+			}
+			// r1, r4: only finished jobs go, and only under retention settings
+			if !j.Terminal() {
 				run.violate("C12", "r1", "step %d: save removed job %s of defined pipeline %s, which is %s", si.N, j.Name, pname, brief(j))
 				if j.Waiting() {
 					run.violate("C03", "r3", "step %d: accepted job %s of pipeline %s was waiting and has vanished (removed by a save): it can neither start nor be reported canceled any more", si.N, j.Name, pname)
 				}
 			}
-			if gone && def.RetCount == 0 && def.RetPeriodMs == 0 {
+			if def.RetCount == 0 && def.RetPeriodMs == 0 {
 				run.violate("C12", "r4", "step %d: pipeline %s has no retention settings but a save removed job %s", si.N, pname, j.Name)
 			}
-			if !gone && j.Terminal() {
-				keptFinished = append(keptFinished, j)
-			}
-		}
-		if def.RetCount > 0 && len(keptFinished) > def.RetCount {
-			run.violate("C12", "r2", "step %d: %d finished jobs of pipeline %s remain after a save, retention_count is %d", si.N, len(keptFinished), pname, def.RetCount)
-		}
-		for _, k := range keptFinished {
-			age := w.run.t0.Add(now).Sub(k.Created)
-			if period > 0 && age > period {
-				run.violate("C12", "r2", "step %d: finished job %s of pipeline %s is %v old and survived a save, retention_period is %v", si.N, k.Name, pname, age, period)
-			}
-			// r3: every strictly newer finished job is kept as well
-			for _, j := range jobs {
-				if removed[j.Name] != nil && j.Terminal() && j.Created.After(k.Created) {
+			// r3: a finished job is kept only if every newer finished job is kept
+			for _, k := range jobs {
+				if removed[k.Name] == nil && k.Terminal() && j.Terminal() && j.Created.After(k.Created) {
 					run.violate("C12", "r3", "step %d: finished job %s (created %v) was removed while the older finished job %s (created %v) was kept", si.N, j.Name, j.Created.Sub(run.t0), k.Name, k.Created.Sub(run.t0))
 				}
 			}
 		}
 	}
-	// r6: what was handed to the store is what the API reports at this instant
+	// ---- the step in which this call handed its snapshot to the store
 	if w.mem != nil {
-		handed, _ := w.mem.counts()
-		if handed > 0 {
-			h := w.mem.handed[handed-1]
-			if h.Step == si.N {
-				if d := diffStore(h.Data, post); d != "" {
-					run.violate("C12", "r6", "step %d: the snapshot handed to the store differs from what the API reports at the same instant: %s", si.N, d)
+		if n, _ := w.mem.counts(); n > 0 && w.mem.handed[n-1].Step == si.N {
+			h := w.mem.handed[n-1]
+			// r6: the snapshot is what the API reported at one instant of the call (today: this one)
+			match := post
+			if d := diffStore(h.Data, post); d != "" {
+				match = nil
+				if call != nil {
+					for st := si.N - 1; st >= call.begin-1 && st > si.N-len(m.snapRing) && st >= 0; st-- {
+						if sn := m.snapRing[st%len(m.snapRing)]; sn != nil && diffStore(h.Data, sn) == "" {
+							match = sn
+							break
+						}
+					}
 				}
-				m.snapAtSave[handed-1] = post
+				if match == nil {
+					run.violate("C12", "r6", "step %d: the snapshot handed to the store differs from what the API reports at the same instant (and at every instant since the save began): %s", si.N, d)
+				}
 			}
+			if match != nil {
+				m.snapAtSave[n-1] = match
+			}
+			if call != nil {
+				call.handed = n - 1
+			}
+			// r2, r5: retention has been applied. Judged on the jobs that were finished when the call began (what
+			// finished while it ran may have come after its removal phase) and that the snapshot still contains.
+			if call != nil && call.atBegin != nil && m.lastReload < call.begin {
+				m.checkRetentionApplied(si, call, h.Data)
+			}
+			run.probe("save_handed_over")
 		}
 	}
-	// r7: logs of removed jobs are gone, logs of kept jobs untouched
+	// ---- r7: logs of removed jobs are gone, logs of kept jobs untouched
+	for _, e := range evs {
+		if e.Kind == "log-remove-failed" {
+			m.removeFailed[e.Job] = true
+			run.fault("log_remove_error")
+		}
+	}
 	if run.logsBefore != nil {
 		after := run.listLogs(w)
-		failedRemove := map[string]bool{}
-		for _, e := range evs {
-			if e.Kind == "log-remove-failed" {
-				failedRemove[e.Job] = true
-				run.fault("log_remove_error")
-			}
-		}
 		for path, sum := range run.logsBefore {
 			job := strings.SplitN(path, "/", 2)[0]
 			name := job
@@ -275,9 +272,11 @@ func (m *monState) checkSaveStep(si *StepInfo, pre, post *Snap, evs []Event) {
 				name = jobName(id)
 			}
 			_, still := after[path]
-			if removed[name] != nil {
-				if still && !failedRemove[name] {
-					run.violate("C12", "r7", "step %d: job %s was removed by a save but its log file %s is still there", si.N, name, path)
+			_, goneEarlier := m.removed[name]
+			if removed[name] != nil || goneEarlier {
+				if still && removed[name] != nil && m.logsPending[name] == nil {
+					// not yet: the call may remove the files later, but before it is over
+					m.logsPending[name] = &pendingLogs{gid: si.Gid, step: si.N, path: path}
 				}
 			} else if !still || after[path] != sum {
 				run.violate("C12", "r7", "step %d: log file %s of kept job %s was removed or changed by a save", si.N, path, name)
@@ -287,6 +286,87 @@ func (m *monState) checkSaveStep(si *StepInfo, pre, post *Snap, evs []Event) {
 			run.probe("retention_with_logs")
 		}
 		run.logsBefore = nil
+	}
+}
+
+// pendingLogs: log files of a job that a save removed from the runner but that were still on disk in that step.
+type pendingLogs struct {
+	gid  uint64
+	step int
+	path string
+}
+
+// checkPendingLogRemovals: "after every save the logs of every removed job are gone". The verdict falls when the
+// goroutine that removed the job has left SaveToStore (or at the end of the run).
+func (m *monState) checkPendingLogRemovals(si *StepInfo, atEnd bool) {
+	if len(m.logsPending) == 0 {
+		return
+	}
+	run := m.run
+	w := run.cur
+	if w == nil || w.isDead() {
+		m.logsPending = map[string]*pendingLogs{}
+		return
+	}
+	var after map[string]string
+	for _, name := range sortedNameSetP(m.logsPending) {
+		p := m.logsPending[name]
+		if !atEnd && run.saving[p.gid] != nil {
+			continue // still inside the call
+		}
+		if after == nil {
+			after = run.listLogs(w)
+		}
+		delete(m.logsPending, name)
+		if _, still := after[p.path]; still && !m.removeFailed[name] {
+			step := run.step
+			if si != nil {
+				step = si.N
+			}
+			run.violate("C12", "r7", "step %d: job %s was removed by a save at step %d, the save is over, but its log file %s is still there", step, name, p.step, p.path)
+		}
+	}
+}
+
+func sortedNameSetP(m map[string]*pendingLogs) []string {
+	var ks []string
+	for k := range m {
+		ks = append(ks, k)
+	}
+	sort.Strings(ks)
+	return ks
+}
+
+// checkRetentionApplied: r2 and r5 on the snapshot a save handed to the store.
+func (m *monState) checkRetentionApplied(si *StepInfo, call *saveCall, pd *store.PersistedData) {
+	run := m.run
+	w := run.cur
+	inSnap := map[string]bool{}
+	for _, n := range sortedPersisted(pd) {
+		inSnap[n] = true
+	}
+	byPipe := map[string][]*JobSnap{}
+	for name, j := range call.atBegin.Jobs {
+		if j.Terminal() && inSnap[name] {
+			byPipe[j.Pipeline] = append(byPipe[j.Pipeline], j)
+		}
+	}
+	for pname, kept := range byPipe {
+		def := w.defs.pipe(pname)
+		if def == nil {
+			sort.Slice(kept, func(a, b int) bool { return kept[a].Name < kept[b].Name })
+			run.violate("C12", "r5", "step %d: finished job %s of pipeline %s, which is no longer defined, survived a save (it was finished before the save began at step %d)", si.N, kept[0].Name, pname, call.begin)
+			continue
+		}
+		if def.RetCount > 0 && len(kept) > def.RetCount {
+			run.violate("C12", "r2", "step %d: %d jobs of pipeline %s that were finished before the save began (step %d) remain after it, retention_count is %d", si.N, len(kept), pname, call.begin, def.RetCount)
+		}
+		period := time.Duration(def.RetPeriodMs) * time.Millisecond
+		for _, k := range kept {
+			if age := run.t0.Add(call.atBegin.At).Sub(k.Created); period > 0 && age > period {
+				run.violate("C12", "r2", "step %d: finished job %s of pipeline %s was %v old when the save began and survived it, retention_period is %v", si.N, k.Name, pname, age, period)
+			}
+		}
 	}
 }
 
@@ -308,6 +388,9 @@ func (m *monState) onSaveOpStart(client int) {
 		return
 	}
 	h, c := w.mem.counts()
+	if run.otherSaveActive(0) {
+		return // another save is under way
+	}
 	info := &saveOpInfo{step: run.step, handed: h, completed: c, names: map[string]bool{}}
 	for n := range run.pre.Jobs {
 		info.names[n] = true
@@ -327,8 +410,8 @@ func (m *monState) checkSaveReturn(si *StepInfo, res *OpResult, post *Snap) {
 		return
 	}
 	h, c := w.mem.counts()
-	if info.handed != info.completed || h != c || h-info.handed > 1 {
-		return // another save was in flight, or a save failed
+	if info.handed != info.completed || h != c || h-info.handed > 1 || run.otherSaveActive(run.clients[res.Client].goid) {
+		return // another save was in flight (or still is), or a save failed
 	}
 	for n := range post.Jobs {
 		if !info.names[n] {
@@ -590,6 +673,7 @@ func (m *monState) onRestart(nw, old *World) {
 	m.shutdownJobsRunningAtBegin = nil
 	m.forcedCancel = map[string]bool{}
 	m.snapAtSave = map[int]*Snap{}
+	m.logsPending = map[string]*pendingLogs{}
 	m.liveExec = map[string]int{} // the executions of the dead process died with it
 	m.initialLoaded = canonPersisted(loaded)
 	m.stableChecked = 0
